@@ -56,6 +56,8 @@ func main() {
 		}
 		fmt.Printf("recorded violation:\n%s\nre-deriving by running the check of %s on the current tree ...\n", b, v.Property)
 		os.Exit(props.RunProperty(v.Property, "quick", 0))
+	case "mod":
+		props.DumpMod(os.Args[2], os.Args[3])
 	case "dt":
 		// voicheck dt <config> <pkg> <func> : print the decision table (debugging aid)
 		if len(os.Args) < 5 {
